@@ -3,6 +3,7 @@ package props
 import (
 	"fmt"
 	"go/token"
+	"go/types"
 	"sort"
 	"strings"
 
@@ -112,6 +113,47 @@ func producers(fn *ssa.Function, isNil func(ssa.Value) bool) []ssa.Instruction {
 	return out
 }
 
+// delegate follows a straight-line wrapper (no branch) to the single method of the same
+// receiver type it calls, so that a lookup split into "wrapper + worker" is analysed at
+// the worker (at most three levels).
+func delegate(fn *ssa.Function) *ssa.Function {
+	for depth := 0; fn != nil && depth < 3; depth++ {
+		n := 0
+		for _, b := range fn.Blocks {
+			if b != fn.Recover {
+				n++
+			}
+		}
+		if n != 1 || fn.Signature.Recv() == nil {
+			return fn
+		}
+		var next *ssa.Function
+		cnt := 0
+		core.Instrs(fn, func(in ssa.Instruction) {
+			ci, ok := in.(ssa.CallInstruction)
+			if !ok {
+				return
+			}
+			if _, isDefer := in.(*ssa.Defer); isDefer {
+				return
+			}
+			cal := ci.Common().StaticCallee()
+			if cal == nil || cal.Blocks == nil || cal.Signature.Recv() == nil || cal.Pkg != fn.Pkg {
+				return
+			}
+			if types.Identical(cal.Signature.Recv().Type(), fn.Signature.Recv().Type()) {
+				next = cal
+				cnt++
+			}
+		})
+		if cnt != 1 {
+			return fn
+		}
+		fn = next
+	}
+	return fn
+}
+
 // lockKinds returns the sorted set of mutex operations called in fn on a field named
 // mutexField ("Lock", "RLock").
 func lockKinds(fn *ssa.Function, mutexField string) string {
@@ -199,7 +241,7 @@ func C05(c *core.Ctx) {
 			c.Und("R5.1", "anchor:"+tn+".UnSetStrategyEnc", "-", "method not found")
 		}
 		// ---- R5.2
-		if fn := p.MethodOf(t, "FindNextHopsEnc"); fn != nil && fn.Blocks != nil {
+		if fn := delegate(p.MethodOf(t, "FindNextHopsEnc")); fn != nil && fn.Blocks != nil {
 			c.Funcs[core.FuncName(fn)] = true
 			var eff []ssa.Instruction
 			eff = append(eff, producers(fn, isNilOrEmpty)...)
@@ -213,7 +255,7 @@ func C05(c *core.Ctx) {
 				"a non-nil result is produced only on the edge asserting len(entry.nexthops) > 0",
 				tn+".FindNextHopsEnc can answer from an entry without next hops (the walk towards shorter prefixes stops too early); path: "+p.PathString(res.Path))
 		}
-		if fn := p.MethodOf(t, "FindStrategyEnc"); fn != nil && fn.Blocks != nil {
+		if fn := delegate(p.MethodOf(t, "FindStrategyEnc")); fn != nil && fn.Blocks != nil {
 			c.Funcs[core.FuncName(fn)] = true
 			eff := producers(fn, isNilOrEmpty)
 			res := core.Gate(fn, eff, pos(atomAnyFieldNotNil("strategy", nil)))
@@ -304,7 +346,11 @@ func C05(c *core.Ctx) {
 		locks[tn] = map[string]string{}
 		for _, m := range []string{"FindNextHopsEnc", "FindStrategyEnc", "InsertNextHopEnc", "ClearNextHopsEnc", "RemoveNextHopEnc", "GetAllFIBEntries", "SetStrategyEnc", "UnSetStrategyEnc", "GetAllForwardingStrategies"} {
 			if fn := p.MethodOf(t, m); fn != nil && fn.Blocks != nil {
-				locks[tn][m] = lockKinds(fn, "fibStrategyRWMutex")
+				k := lockKinds(fn, "fibStrategyRWMutex")
+				if d := delegate(fn); d != fn && k == "" {
+					k = lockKinds(d, "fibStrategyRWMutex")
+				}
+				locks[tn][m] = k
 			}
 		}
 	}
